@@ -157,6 +157,9 @@ class World:
         from sqlalchemy import event
         from sqlalchemy.orm import declarative_base
 
+        from harness.lib_orm2 import odd_mixin
+
+        Odd = odd_mixin("id", "val")  # falsy, value-equal instances
         self.sa = sa
         self.variant = variant
         fn = os.path.join(_tmpdir(), variant + ".db")
@@ -168,7 +171,7 @@ class World:
             gstart, gstep = 0, 1
         if variant == "joined":
 
-            class B(Base):
+            class B(Odd, Base):
                 __tablename__ = "b"
                 id = sa.Column(sa.Integer, primary_key=True, autoincrement=False)
                 ver = sa.Column(sa.Integer, nullable=False)
@@ -189,7 +192,7 @@ class World:
             # the other levels carry a column that never changes
             where = variant[len("joined3"):]
 
-            class B(Base):
+            class B(Odd, Base):
                 __tablename__ = "d3"
                 id = sa.Column(sa.Integer, primary_key=True, autoincrement=False)
                 ver = sa.Column(sa.Integer, nullable=False)
@@ -239,7 +242,7 @@ class World:
                 vercol = sa.Column("ver", sa.Integer, nullable=False)
                 margs = {}
 
-            class T(Base):
+            class T(Odd, Base):
                 __tablename__ = "t"
                 id = sa.Column(sa.Integer, primary_key=True, autoincrement=False)
                 val = sa.Column(sa.Integer)
